@@ -87,6 +87,35 @@ def parseMerge (po : PercentOracle) (io : IntOracle) (defaultPercent : Nat × Na
                  else .error .valueError                                                          -- invalid merge policy
   | [] => .error .valueError
 
+/-- the name part of one `--merge` item, as `parse_args` splits it -/
+def mergeName (m : String) : String :=
+  match (if m.contains '_' then splitUnderscore m else [m]) with
+  | name :: _ => name
+  | [] => m
+
+/-- `validate` over the whole `--merge` list: the first item whose name is not a policy name raises, before anything is
+  converted -/
+def validateMerge : List String → Except PyErr Unit
+  | [] => pure ()
+  | m :: rest =>
+    if mergeName m == "percent" || mergeName m == "number" || mergeName m == "exact" then validateMerge rest
+    else .error .valueError
+
+/-- `set_args` over the `--merge` list: one comparator per item, in the order given (nothing is dropped or re-ordered; a
+  kind may occur several times) -/
+def convertMerge (po : PercentOracle) (io : IntOracle) (dp : Nat × Nat) (dn : Nat) : List String → Except PyErr (List Cmp)
+  | [] => pure []
+  | m :: rest => do
+    let c ← parseMerge po io dp dn m
+    let cs ← convertMerge po io dp dn rest
+    pure (c :: cs)
+
+/-- `validate` then `set_args` -/
+def parseMergeList (po : PercentOracle) (io : IntOracle) (dp : Nat × Nat) (dn : Nat) (items : List String) :
+    Except PyErr (List Cmp) := do
+  validateMerge items
+  convertMerge po io dp dn items
+
 /-- observable result of a CLI process -/
 structure Outcome where
   exit : Nat
